@@ -514,6 +514,18 @@ def run(ctx):
     ctx.cover(dynamic_lookup_cases=len(dyn_cases), dynamic_lookup_classes=len(cls_order))
 
     mark("dynamic-lookup")
+    # ---- (4d) session 6: class chain / inheritance test, lookup histories in both orders, the translation family
+    from harness import c17_translate as TR
+    ctx.assume("translation: a node carries no version; its schema is onnx.defs.get_schema(op_type, v, domain) with v the version the "
+               "enclosing FunctionProto / ModelProto (or model-local function) imports for the node's domain; the scripts of the "
+               "translation family are straight-line calls of generated methods on tensor parameters (no literals, no control flow)")
+    TR.chain_stage(ctx, R, opsets, classes, recs, live_schema)
+    mark("class-chain")
+    _late, _pairs = TR.history_stage(ctx, recs, live_schema)
+    mark("lookup-histories")
+    if _pairs is not None:
+        TR.translation_stage(ctx, R, opsets, classes, recs, live_schema, _pairs)
+    mark("translation")
     # ---- (4b') the opsets the property names: every onnx.defs domain is either inside the registry theorem (a generated class per
     #      version) or excluded by the generator's documented exclusion and then reachable through a plain values.Opset only
     from harness import c17_opgen as G_
